@@ -17,6 +17,17 @@ def names_below(node):
 
 
 def swap_stream(rep, rng, n):
+    """chunked (declarations of command trees are large: keep at most a few hundred pairs in memory)"""
+    done = 0
+    while done < n:
+        k = min(400, n - done)
+        if not swap_chunk(rep, rng, k):
+            return False
+        done += k
+    return True
+
+
+def swap_chunk(rep, rng, n):
     """implementation only: `app FLAG cmd rest` and `app cmd FLAG rest` have the same outcome when FLAG is a flag of the parser that
     the command (and everything below it) does not redeclare - errors, values, active chain, remaining arguments, set marks."""
     pairs = []
@@ -28,6 +39,9 @@ def swap_stream(rep, rng, n):
         subs = [s2 for s2 in root["subs"] if s2["name"]]
         flags_ = [o for o in root["opts"] if o["isbool"] and o["type"][0] != "func" and not o.get("ns") and (o["long"] or (o["short"] and len(o["short"].decode("utf-8", "replace")) == 1))]
         flags_ = [o for o in flags_ if o["long"] != b"help" and o["short"] != b"h"]      # help shows the command active at that point
+        # separately added groups may declare the same name again (the lookup's last binding wins): keep to names that denote one option
+        flags_ = [o for o in flags_ if (not o["long"] or sum(1 for x in root["opts"] if x["long"] == o["long"]) == 1)
+                  and (not o["short"] or sum(1 for x in root["opts"] if x["short"] == o["short"]) == 1)]
         if not subs or not flags_:
             continue
         s2 = rng.choice(subs)
